@@ -500,6 +500,14 @@ impl Ctx {
     pub fn replay_files(&self) -> Vec<(PathBuf, Value)> {
         let mut out = Vec::new();
         if let Some(p) = &self.replay {
+            let is_json = std::fs::read_to_string(p).ok().and_then(|t| serde_json::from_str::<Value>(&t).ok()).is_some();
+            if !is_json {
+                if !crate::fuzzrun::replay_raw(self, p) {
+                    eprintln!("cannot read replay file {} (neither a JSON case nor a raw artifact for {})", p.display(), self.id);
+                    std::process::exit(2);
+                }
+                return out;
+            }
             match std::fs::read_to_string(p)
                 .ok()
                 .and_then(|t| serde_json::from_str::<Value>(&t).ok())
@@ -514,12 +522,15 @@ impl Ctx {
         }
         let dir = Path::new(VERIF_DIR).join("replays").join(&self.id);
         if let Ok(rd) = std::fs::read_dir(&dir) {
-            let mut files: Vec<PathBuf> = rd
-                .filter_map(|e| e.ok())
-                .map(|e| e.path())
-                .filter(|p| p.extension().is_some_and(|x| x == "json"))
-                .collect();
+            let all: Vec<PathBuf> = rd.filter_map(|e| e.ok()).map(|e| e.path()).collect();
+            let mut files: Vec<PathBuf> = all.iter().filter(|p| p.extension().is_some_and(|x| x == "json")).cloned().collect();
             files.sort();
+            // raw fuzz artifacts kept as regression inputs
+            let mut raws: Vec<PathBuf> = all.iter().filter(|p| p.extension().is_some_and(|x| x == "bin")).cloned().collect();
+            raws.sort();
+            for r in raws {
+                crate::fuzzrun::replay_raw(self, &r);
+            }
             for p in files {
                 if let Some(v) = std::fs::read_to_string(&p)
                     .ok()
